@@ -372,4 +372,53 @@ theorem interned_consensus_cost (s : ISt) (D : Nat) (p : Params) (g : GenInput) 
   rw [Nat.mod_eq_of_lt h1, Nat.mod_eq_of_lt hsmall]
   omega
 
+/-- **Consensus cost of the compressed builder's block** (byte-cost mode): the same statement for
+`BlockBuilder::finalize` — the cost it returns, `block_cost + len·cost_per_byte` with `len` the length
+of the emitted bytes, is the cost `run_block_generator2` (without INTERNED_GENERATOR) charges for a
+generator of that serialised length that decodes to the builder's spend list. -/
+theorem compressed_consensus_cost (s : CSt) (finalSize D : Nat) (p : Params) (g : GenInput) (puz : Nat → RunRes) (L : Nat)
+    (b : Cond.Bundle) (r : Sexp × List Nat × Nat)
+    (hflag : Cond.hasFlag p.flags Gen.flagInternedGenerator = false) (hcpb : p.costPerByte = s.cpb)
+    (hlen : g.len = finalSize) (hblock : s.blockCost = quoteCost + D)
+    (hrun : native p g (some (quoteCost, .pair (Sexp.ofList s.spends) Sexp.nil)) puz L = .ok b)
+    (htruth : quoteCost + D = b.executionCost + b.conditionCost)
+    (hsmall : finalSize * s.cpb + s.blockCost < W)
+    (hfin : s.finalize finalSize = some r) :
+    r.2.2 = b.cost := by
+  have hd := C04.native_cost_decomposition p g _ puz L b hrun
+  unfold nativeBase at hd
+  rw [hflag] at hd
+  simp only [Bool.false_eq_true, if_false, hlen, hcpb] at hd
+  unfold CSt.finalize at hfin
+  simp only at hfin
+  split at hfin
+  · injection hfin with hfin
+    rw [← hfin]
+    simp only [wadd, wmul]
+    have h1 : finalSize * s.cpb < W := by omega
+    rw [Nat.mod_eq_of_lt h1, Nat.mod_eq_of_lt (by omega)]
+    omega
+  · cases hfin
+
+namespace CostWitness
+/-- non-vacuity of the two consensus-cost theorems: a one-spend block (identity puzzle creating one
+coin; puzzle run 5, CREATE_COIN 1 800 000) whose declared cost is truthful -/
+def spend1 : Sexp := Sexp.ofList [.atom (List.replicate 32 7), .atom [1], .atom [2], Sexp.nil]
+def conds1 : Sexp := Sexp.ofList [Sexp.ofList [.atom [51], .atom (List.replicate 32 9), .atom [1]]]
+def puz1 : Nat → RunRes := fun _ => some (5, conds1)
+def pI : Params := { flags := Gen.flagInternedGenerator, pkOk := fun _ => true, sigOk := fun _ => true }
+def pC : Params := { flags := 0, pkOk := fun _ => true, sigOk := fun _ => true }
+def sI : ISt := { spends := [spend1], blockCost := quoteCost + 1800005, cpb := Gen.costPerByte, maxCost := 11000000000 }
+def sC : CSt := { spends := [spend1], blockCost := quoteCost + 1800005, cpb := Gen.costPerByte, maxCost := 11000000000 }
+def gI : GenInput := { len := 47, startsQuote := true, prog := generator sI.spends, nrefs := 0 }
+
+example : (match native pI gI (some (quoteCost, .pair (Sexp.ofList sI.spends) Sexp.nil)) puz1 11000000000 with
+    | .ok b => decide (quoteCost + 1800005 = b.executionCost + b.conditionCost ∧ sI.finalCost = b.cost)
+    | .error _ => false) = true := by decide +kernel
+
+example : (match native pC gI (some (quoteCost, .pair (Sexp.ofList sC.spends) Sexp.nil)) puz1 11000000000, sC.finalize 47 with
+    | .ok b, some r => decide (quoteCost + 1800005 = b.executionCost + b.conditionCost ∧ r.2.2 = b.cost)
+    | _, _ => false) = true := by decide +kernel
+end CostWitness
+
 end ChiaModel.C10
